@@ -205,6 +205,8 @@ theorem cellDec_accept {cfg : Cfg} (hk : HexOK cfg) {edges : List (Nat × Nat)} 
     · split at h
       · simp at h
       · rename_i l' hl'
+        split at h <;> try (simp at h)
+        split at h <;> try (simp at h)
         rw [cellDecBase_accept h]
         exact hk _ _ _ hl'
 
@@ -238,7 +240,12 @@ theorem cellDec_no_fault {cfg : Cfg} (hk : HexOK cfg) {edges : List (Nat × Nat)
           · split
             · simp
             · rename_i l' hl'
-              exact cellDecBase_no_fault (fun x hx => hb x (hk _ _ _ hl' x hx))
+              -- the range test on the reordered list: `l' ⊆ hfs`, and `hfs` was range-checked above
+              have hb' : ∀ x ∈ l', x < 2 * faces.length := fun x hx => hb x (hk _ _ _ hl' x hx)
+              rw [any_oob_false hb']; simp only [Bool.false_eq_true, if_false]
+              split
+              · simp
+              · exact cellDecBase_no_fault hb'
 
 /-! ### loop bodies -/
 
